@@ -36,7 +36,7 @@ def run(ctx):
     ctx.rule = ("case = (size, extraction entry point [copy/hard_link/reflink x key/hash x checked/unchecked, reflink "
                 "with and without emulated FICLONE], mode, destination absent/present(marker bytes), content state "
                 "pristine / one of the C01 damage classes / missing, key present/absent). After every call the "
-                "destination is lstat'ed and read by the harness; look-alike neighbours (<name>.tmp, .part, .<name>.swp) must survive. Size sweep: pristine content of every size 2^k, 3*2^k and "
+                "destination is lstat'ed and read by the harness; look-alike neighbours (<name>.tmp, .part, .<name>.swp) must survive. Aliased destinations (symlink to a file, dangling symlink, file with a second hard link), pristine and damaged content. Size sweep: pristine content of every size 2^k, 3*2^k and "
                 "their neighbours (k <= 17 quick, 21 thorough) through every copy/hard-link entry point. distinct = (entry point, mode, content state, "
                 "damage class, destination state, size)")
     ctx.assumptions = ["no reflink-capable filesystem: FICLONE is emulated for the success path",
@@ -157,6 +157,7 @@ def run(ctx):
                 if cm:
                     cm.__exit__(None, None, None)
     size_sweep(ctx, rng, cache, destroot, modes)
+    aliased_destinations(ctx, rng, cache, destroot, modes)
     repeat_after_damage(ctx, rng, cache, destroot, modes)
     for d in fic.values():
         d.close()
@@ -190,6 +191,75 @@ def size_sweep(ctx, rng, cache, destroot, modes):
                 ctx.count("size_sweep_extractions")
             ctx.rm(ddir)
         ctx.call("sync@astd", {"op": "remove_hash", "cache": cache, "sri": sri})
+
+
+def aliased_destinations(ctx, rng, cache, destroot, modes):
+    """The destination has a second name: it is a symlink to an existing file, a dangling symlink, or a file with another
+    hard link. A successful copy delivers the bytes (through the link); a checked copy that fails verification leaves the
+    unverified bytes under NONE of the names."""
+    for size in (300, 20000):
+        data = rng.randbytes(size)
+        key = f"alias-{size}"
+        w = ctx.call("sync@astd", {"op": "write", "cache": cache, "key": key, "data": ctx.data(data)})
+        if not ev.is_ok(w):
+            continue
+        sri = w["ok"]["sri"]
+        path = ref.content_path_sri(cache, sri)
+        bad = bytearray(data)
+        bad[size // 2] ^= 0x01
+        bad = bytes(bad)
+        for state in ("pristine", "damaged"):
+            with open(path, "wb") as f:
+                f.write(data if state == "pristine" else bad)
+            for mode in modes:
+                for n in ("copy", "copy_hash") + (("copy_unchecked", "copy_hash_unchecked") if state == "pristine" else ()):
+                    if not retr.available(n, mode):
+                        continue
+                    for kind in ("symlink-to-file", "dangling-symlink", "hard-link-twin"):
+                        ddir = os.path.join(destroot, f"alias-{size}-{state}-{mode.replace('@', '-')}-{n}-{kind}")
+                        os.makedirs(ddir)
+                        dest, other = os.path.join(ddir, "dest"), os.path.join(ddir, "other-name")
+                        if kind == "symlink-to-file":
+                            open(other, "wb").write(MARK)
+                            os.symlink(other, dest)
+                        elif kind == "dangling-symlink":
+                            os.symlink(other, dest)
+                        else:
+                            open(other, "wb").write(MARK)
+                            os.link(other, dest)
+                        q = retr.request(n, cache, key, sri, dest)
+                        r = ctx.call(mode, q)
+                        ctx.case(distinct_key=("aliased-destination", n, mode, state, kind, size))
+                        ctx.count("aliased_destination_extractions")
+                        holders = []
+                        for nm in os.listdir(ddir):
+                            try:
+                                if open(os.path.join(ddir, nm), "rb").read() == bad:
+                                    holders.append(nm)
+                            except OSError:
+                                pass
+                        det = {"entry_point": n, "mode": mode, "state": state, "destination": kind, "size": size,
+                               "response": r, "steps": [[mode, q]]}
+                        if state == "damaged":
+                            if ev.is_ok(r):
+                                ctx.violation(f"{n}|{mode}|aliased-destination|{kind}|damaged-Ok",
+                                              f"{n} in {mode} onto a {kind} destination returned Ok on damaged content", det)
+                            elif holders:
+                                ctx.violation(f"{n}|{mode}|aliased-destination|{kind}|unverified-bytes-left",
+                                              f"{n} in {mode} failed verification ({ev.variant(r)}) but the unverified bytes are left "
+                                              f"under {holders} (the destination was a {kind})", det)
+                        elif ev.is_ok(r):
+                            try:
+                                got = open(dest, "rb").read()
+                            except OSError:
+                                got = None
+                            if got != data:
+                                ctx.violation(f"{n}|{mode}|aliased-destination|{kind}|wrong-bytes",
+                                              f"{n} in {mode} onto a {kind} destination returned Ok but reading the destination gives "
+                                              f"{None if got is None else len(got)} bytes that are not the stored ones", det)
+                        ctx.rm(ddir)
+        with open(path, "wb") as f:
+            f.write(data)
 
 
 def repeat_after_damage(ctx, rng, cache, destroot, modes):
